@@ -11,15 +11,37 @@ independently read domain text):
 """
 import itertools
 import json
+import math
+import os
 import random
 
 from ..common import (Report, case_hash, cbool, chex, clist, cstr, decide, load_findings, run_case_shards, run_impl,
                       standard_proof_part)
 from .. import pddlgen as G
-from ..core_common import build_world, catom, run_worlds, world_literal
+from ..core_common import build_world, catom, count_groups, run_worlds, world_literal
 
 HEADER = "From Coq Require Import PrimFloat NArith.\nFrom Verif Require Import Spec.Pddl Corr.Core Corr.C02.\n"
 PROP = "C02"
+
+# the tolerance of the STATED configuration (environment EPSILON, default 0.0001) -- not read from the module under test, so a
+# change of the tolerance inside the library shows up as a disagreement at the boundary values below
+STATED_EPS = float(os.environ.get("EPSILON", 0.0001))
+BOUNDARY_FACTORS = [0.0, 0.5, 0.99, 1.01, 1.5, 2.0]
+
+
+def boundary_values(m, eps=None):
+    """values around m whose distance to m is 0, 0.5, 0.99, 1.01, 1.5, 2 tolerances (both sides), m +- eps itself and one ulp
+    either side of those: a comparison with m flips exactly at the tolerance"""
+    eps = STATED_EPS if eps is None else eps
+    vals = [m + k * eps for k in BOUNDARY_FACTORS] + [m - k * eps for k in BOUNDARY_FACTORS[1:]]
+    for edge in (m + eps, m - eps):
+        vals += [edge, math.nextafter(edge, math.inf), math.nextafter(edge, -math.inf)]
+    out = []
+    for v in vals:
+        if v not in out:
+            out.append(v)
+    return out
+
 
 # ------------------------------------------------------------------------------------------------ scope generation
 X, Y, K, V = "?x", "?y", "k", "?v"
@@ -36,6 +58,7 @@ class Family:
                      [["r", [a, b]] for a in names for b in names] + [["z", []]]
         self.fluents = [[f, [a]] for a in names] + [[h, []]]
         self.calls = [list(c) for c in itertools.product(names, repeat=2)]
+        self.grid = [0.0, 1.0]
 
     def header(self):
         c = "(:constants %s - u) " % K if self.const else ""
@@ -61,6 +84,24 @@ class Family:
         return lits + eqs + cmps + foralls
 
 
+class BoundFamily(Family):
+    """the tolerance boundary: fluent values 0 / 0.5 / 0.99 / 1.01 / 1.5 / 2 tolerances (and single ulps around one tolerance) away
+    from the magnitude m, compared by every operator with each other, with (h) and with the numeral m"""
+
+    def __init__(self, mtext, quick):
+        Family.__init__(self, "Fbound_" + mtext, False)
+        self.mtext = mtext
+        vals = boundary_values(float(mtext))
+        self.grid = vals[:6] + vals[11:14] if quick else vals          # quick: one side + the edge and its two neighbours
+
+    def leaves(self):
+        F, H = self.f, self.h
+        out = []
+        for op in ("=", "<=", ">=", "<", ">"):
+            out += [[op, [F, X], [F, Y]], [op, [F, X], [H]], [op, [F, Y], self.mtext]]
+        return out + [["not", ["p", X]]]
+
+
 def names_in(t, acc):
     if isinstance(t, str):
         acc.add(t)
@@ -78,6 +119,9 @@ BUDGET = {  # (leaves, two-leaf formulas, size-3 formulas, calls per formula, st
     ("quick", "F2"): (10, 30, 12, 2, 32),
     ("quick", "F3const"): (8, 14, 6, 2, 32),
     ("quick", "F2clash"): (8, 14, 6, 2, 32),
+    ("quick", "Fbound_1"): (None, 6, 0, 2, 81), ("quick", "Fbound_0.001"): (None, 4, 0, 1, 81), ("quick", "Fbound_1000"): (None, 4, 0, 1, 81),
+    ("thorough", "Fbound_1"): (None, 40, 0, None, 400), ("thorough", "Fbound_0.001"): (None, 40, 0, None, 400),
+    ("thorough", "Fbound_1000"): (None, 40, 0, None, 400), ("thorough", "Fbound_10"): (None, 20, 0, None, 400),
 }
 
 
@@ -120,14 +164,14 @@ def formulas(fam, rng, tier):
 
 def scope_jobs(rng, tier):
     fams = [Family("F2", False), Family("F3const", True), Family("F2clash", False, f="q", h="z"),
-            Family("F3obj", False, third=True)]
+            Family("F3obj", False, third=True)] + [BoundFamily(m, tier == "quick") for m in ("1", "0.001", "1000", "10")]
     jobs = []
     exhaustive = {}
-    grid = [0.0, 1.0]
     per_job = 24
     for fam in fams:
         if (tier, fam.name) not in BUDGET:
             continue
+        grid = fam.grid
         _, _, _, ncalls, cap = BUDGET[(tier, fam.name)]
         fs, complete = formulas(fam, rng, tier)
         exhaustive[fam.name] = complete and ncalls is None
@@ -249,11 +293,41 @@ def gen_world_t(rng, max_actions=2):
     return w
 
 
+def near_boundary_state(rng, st):
+    """move every fluent next to one of the numerals the generated domains compare with: 0 .. 2 tolerances away (either side),
+    or exactly one tolerance away give or take an ulp"""
+    fl = []
+    for f, a, v in st["fluents"]:
+        c = float(rng.choice(G.DOMAIN_NUMERALS + ["0.001", "100", "1000"]))
+        fl.append((f, a, rng.choice(boundary_values(c))))
+    return {"facts": st["facts"], "fluents": fl}
+
+
+def build_world_b(rng, w, n_states, calls_per_action, name="dom"):
+    """core_common.build_world with one addition: every other state has its fluents moved to the tolerance boundary"""
+    objs = G.gen_objects(rng, w)
+    text = G.render(w.domain_tree(name), rng, True)
+    probes = []
+    for k in range(n_states):
+        st = G.gen_state(rng, w, objs)
+        if k % 2 == 1 and st["fluents"]:
+            st = near_boundary_state(rng, st)
+            w.features.add("boundary-fluents")
+        ptxt = G.problem_text(w, objs, st, domain=name)
+        for a in w.actions:
+            nwhen, nuniv = count_groups(a)
+            for args in G.calls_for(rng, w, objs, a, limit=calls_per_action):
+                probes.append({"action": a["name"], "args": args, "state": st, "problem_text": ptxt,
+                               "perm_seed": 0, "nwhen": nwhen, "nuniv": nuniv})
+    return {"domain_text": text, "objects": objs, "oof": w.oof, "oof_kind": w.oof_kind, "probes": probes,
+            "features": sorted(w.features), "tree": w.domain_tree(name)}
+
+
 def generated_worlds(rng, tier):
     worlds = []
     for _ in range({"quick": 60, "thorough": 600}[tier]):
         w = gen_world_t(rng, max_actions=2)
-        worlds.append(build_world(rng, w, n_states=3, calls_per_action=5, perms=(0,)))
+        worlds.append(build_world_b(rng, w, n_states=4, calls_per_action=4))
     return worlds
 
 
@@ -342,7 +416,7 @@ def run(args):
             chunk = list(zip(ws[start:start + 150], results[start:start + 150]))
             lits, units = [], []
             for wd, res in chunk:
-                lit, u = world_literal(wd, res, cfg["epsilon"])
+                lit, u = world_literal(wd, res, STATED_EPS.hex())
                 lits.append("(AW %s)" % lit)
                 units.append(u)
             verdicts = evaluate(lits, units)
@@ -410,7 +484,7 @@ def run(args):
         seen_rows = set()
         for start in range(0, len(jobs), 48):
             chunk = list(zip(jobs[start:start + 48], results[start:start + 48]))
-            lits = [scase_literal(job, res, cfg["epsilon"]) for job, res in chunk]
+            lits = [scase_literal(job, res, STATED_EPS.hex()) for job, res in chunk]
             units = [sum(len(a) for a in res["answers"]) for _, res in chunk]
             verdicts = evaluate(lits, units)
             pos = 0
@@ -442,6 +516,7 @@ def run(args):
     cov["input_distribution"] = stats
     cov["hash_seeds"] = hashseeds
     cov["numeric_config"] = cfg
+    cov["stated_epsilon"] = STATED_EPS
     cov["exhaustive"] = bool(exhaustive.get("F2"))
     cov["exhaustive_detail"] = exhaustive
     cov["rule"] = (
@@ -452,8 +527,11 @@ def run(args):
         "with a nested or); calls = every pair over the universe (repeats and the constant included); states = every assignment "
         "to the ground atoms of the mentioned predicates and to the mentioned fluents over the grid {0,1} (capped at 64 per call, "
         "32 in quick; capped rows are counted), all other atoms/fluents at a random base value.  Families: F2 (o1-t o2-u), F3const "
-        "(+ constant k-u), F3obj (+ o3-t), F2clash (functions named q and z like the predicates).  worlds: generated typed domains "
-        "(pddlgen) x 3 random states x <=5 type-correct calls per action; corpus: witnesses of the C02 findings; fixtures: shipped "
+        "(+ constant k-u), F3obj (+ o3-t), F2clash (functions named q and z like the predicates), Fbound_m for m in 0.001, 1, 1000 (10 in "
+        "thorough): every operator = <= >= < > between (f ?x) and (f ?y), (h), the numeral m, over a grid of values 0 / 0.5 / 0.99 / 1.01 / "
+        "1.5 / 2 tolerances away from m and one tolerance away give or take one ulp -- the tolerance is the STATED configuration's (env "
+        "EPSILON or 0.0001), not read from the library.  worlds: generated typed domains "
+        "(pddlgen) x 4 states (every other one with its fluents moved next to a numeral the domains compare with, at the same distances) x <=4 type-correct calls per action; corpus: witnesses of the C02 findings; fixtures: shipped "
         "domain/problem pairs under <repo>/tests (6 of 17 in quick, all in thorough), calls over the problem's objects (half of them applicable "
         "in the initial state), evaluated in the initial state and in perturbed copies of it.  "
         "A probe is non-trivial when its formula has >= 2 connectives and (scope) the run contains both a true and a false "
